@@ -12,6 +12,7 @@ topology and the geometric outer-ring flags of the points) into coq/Gen/C19/Tabl
 Properties/C19.v proves the partition property about those tables.
 """
 import json
+import hashlib
 import math
 import os
 import re
@@ -413,7 +414,18 @@ def observe_written(spec):
     deleted = [n for n, o in enumerate(stack.operations) if o is dele]
     mesh = cb.Mesh()
     mesh.add(stack)
+    # for every second spec (decided by the spec, so that replays agree) the operation is deleted from a mesh that is already
+    # assembled, and the mesh is back-ported before it is written: the file still lacks exactly the addressed block
+    late = int(hashlib.sha1(json.dumps(spec, sort_keys=True, default=str).encode()).hexdigest()[:4], 16) % 2 == 0
+    if late:
+        with warnings.catch_warnings():
+            warnings.simplefilter("ignore")
+            mesh.assemble()
     mesh.delete(dele)
+    if late:
+        with warnings.catch_warnings():
+            warnings.simplefilter("ignore")
+            mesh.backport()
     fd, path = tempfile.mkstemp(prefix="c19_", suffix=".blockMeshDict")
     os.close(fd)
     try:
